@@ -131,31 +131,46 @@ macro_rules! adapters {
                 const P: &str = "TweedieRegressorValidParams";
                 const T: &str = "TweedieRegressor";
                 let power = [0.0, 1.0, 2.0, 3.0, 1.5][k.pick(5)];
-                let mut params = TweedieRegressor::<F>::params()
-                    .power(F::of(power))
-                    .alpha(F::of([0.0, 1.0, 0.1][k.pick(3)]))
-                    .fit_intercept(k.flag())
-                    .max_iter(30)
-                    .tol(F::of(1e-4));
+                let alpha = [0.0, 1.0, 0.1][k.pick(3)];
+                let intercept = k.flag();
                 // only link / family pairs whose mean stays inside the family's domain for every coefficient vector
                 // (the identity link with a positive power lets the line search run into NaN and never return)
-                match (k.pick(3), power > 0.0) {
-                    (0, _) => {}
-                    (_, true) => params = params.link(Link::Log),
-                    (_, false) => params = params.link(Link::Identity),
+                let link = match (k.pick(3), power > 0.0) {
+                    (0, _) => None,
+                    (_, true) => Some(Link::Log),
+                    (_, false) => Some(Link::Identity),
+                };
+                macro_rules! params {
+                    ($T:ty) => {{
+                        let mut p = TweedieRegressor::<$T>::params()
+                            .power(power as $T)
+                            .alpha(alpha as $T)
+                            .fit_intercept(intercept)
+                            .max_iter(30)
+                            .tol(1e-4 as $T);
+                        if let Some(l) = link {
+                            p = p.link(l);
+                        }
+                        p.check()
+                    }};
                 }
-                let valid = match params.check() {
+                let valid = match params!(F) {
                     Ok(v) => v,
                     Err(_) => return obs.skip("params_invalid"),
                 };
-                // strictly positive targets: inside the domain of every family used here
-                let y: Array1<F> = y1(c).mapv(|v| F::of(v.f().abs() + 0.25));
-                // records scaled into (-2, 2): with the raw range the f32 line search of the Poisson / gamma fits
-                // does not terminate (exp of the linear predictor leaves the f32 range) — a hang cannot be skipped
+                // Every fit runs in f64: `TweedieRegressor::<f32>` fits (any family, e.g. the normal one with identity link on ten
+                // rows) can keep the line search busy for ever, and a hang cannot be skipped. Records are scaled into (-2, 2) and
+                // targets are strictly positive, inside the domain of every family used here.
+                let valid64 = match params!(f64) {
+                    Ok(v) => v,
+                    Err(_) => return obs.skip("params_invalid"),
+                };
+                let y: Array1<f64> = Array1::from(targets::<f64>(c, 0)).mapv(|v| v.abs() + 0.25);
                 let xs: Vec<Vec<f64>> = c.x.iter().map(|r| r.iter().map(|v| v / 8.0).collect()).collect();
-                let ds = Dataset::new(mat::<F>(&xs), y);
+                let ds = Dataset::new(mat::<f64>(&xs), y);
                 obs.class(P);
-                let want_fit = fit_outcome(|| valid.fit(&ds));
+                let is64 = std::any::TypeId::of::<F>() == std::any::TypeId::of::<f64>();
+                let want_fit = fit_outcome(|| valid64.fit(&ds));
                 for (fmt, back) in roundtrip(obs, P, &valid, STABLE) {
                     eq_check(obs, P, fmt, &valid, &back);
                     must(obs, P, fmt, "alpha", same(valid.alpha(), back.alpha()));
@@ -164,11 +179,20 @@ macro_rules! adapters {
                     must(obs, P, fmt, "link", valid.link() == back.link());
                     must(obs, P, fmt, "max_iter", valid.max_iter() == back.max_iter());
                     must(obs, P, fmt, "tol", same(valid.tol(), back.tol()));
-                    same_refit(obs, P, fmt, &want_fit, fit_outcome(|| back.fit(&ds)));
                 }
-                let model = match vengine::guard(|| valid.fit(&ds)) {
+                if is64 {
+                    for (fmt, back) in roundtrip(obs, P, &valid64, STABLE) {
+                        same_refit(obs, P, fmt, &want_fit, fit_outcome(|| back.fit(&ds)));
+                    }
+                }
+                let model64 = match vengine::guard(|| valid64.fit(&ds)) {
                     Ok(Ok(m)) => m,
                     _ => return obs.class("no_fitted_instance"),
+                };
+                // the instance of the case's float type: the f64 fit itself, or (f32) its JSON form read back as f32
+                let model: TweedieRegressor<F> = match serde_json::to_value(&model64).ok().and_then(|j| serde_json::from_value(j).ok()) {
+                    Some(m) => m,
+                    None => return obs.class("no_fitted_instance"),
                 };
                 obs.class(T);
                 obs.nontrivial();
